@@ -2,8 +2,9 @@
 // after every prefix of the atomic datastore writes of a boot or production step (crashds.FailAfter: the
 // writes after the cut never reach the datastore, the volatile process is discarded), a FRESH real Manager
 // is booted on the surviving image (possibly killed again during that boot or the following step: nesting
-// depth up to 3), and driven on.  Shutdown: SaveCache writes the eight gob cache files; a "torn" shutdown
-// leaves one of them a strict prefix of its content.
+// depth up to 3), and driven on.  Shutdown: the real SaveCache writes the eight gob cache files (temporary
+// file + rename); a shutdown cut after j files leaves files j.. with their previous content and a partly
+// written temporary file.  A small malformed stream truncates a cache file by hand (not a crash).
 // Go oracle (harness/producer/oracle.go), on the real store after every item: recorded height = state
 // height, no committed block is replaced, heights advance by one, the chain stays valid; at the end a
 // restart must succeed and three well-formed responses must produce a block.
@@ -61,12 +62,33 @@ func gen(_ *rand.Rand, tier string, c int, seed int64) (producer.Cfg, []producer
 		h = append(h, wfStep(r, &cur))
 	}
 	mode := r.Intn(100)
+	if base%13 == 5 {
+		mode = 13 // the malformed stream is always represented
+	}
 	switch {
 	case mode < 12:
-		// crash in the middle of writing the cache files at shutdown
-		h = append(h, producer.Item{T: "stop", Torn: true, TornFile: r.Intn(8), TornLen: []int{0, 1, 7, 1 << 20}[k%4] + k/4*3})
-		// every later start is expected to fail in LoadCache (listed finding); the model must agree
-		h = append(h, producer.Item{T: "boot"}, wfStep(r, &cur), producer.Item{T: "boot", InitErr: k%2 == 0})
+		// crash in the middle of writing the cache files at shutdown: the process dies after j of the eight
+		// files were renamed into place; every later start must succeed
+		h = append(h, producer.Item{T: "stop", Crash: true, K: []int{0, 1, 3, 4, 7, 8}[k]})
+		h = append(h, producer.Item{T: "boot"})
+		for i := 0; i < 2; i++ {
+			h = append(h, wfStep(r, &cur))
+		}
+		if k%2 == 0 { // and once more, cut elsewhere
+			h = append(h, producer.Item{T: "stop", Crash: true, K: r.Intn(9)}, producer.Item{T: "boot"}, wfStep(r, &cur))
+		}
+		return cfg, h
+	case mode < 16:
+		// malformed stream, NOT reachable by a crash of the repaired code: a cache file truncated by hand
+		f := r.Intn(8)
+		if k < 3 {
+			h = append(h, producer.Item{T: "stop"}, producer.Item{T: "tamper", TornFile: f, TornLen: []int{0, 1, 7}[k]},
+				producer.Item{T: "boot"}, wfStep(r, &cur))
+		} else {
+			// damaged while the process runs, then a shutdown cut after j files: repaired iff f < j
+			h = append(h, producer.Item{T: "tamper", TornFile: f, TornLen: k}, producer.Item{T: "stop", Crash: true, K: []int{0, 4, 8}[k-3]},
+				producer.Item{T: "boot"}, wfStep(r, &cur))
+		}
 		return cfg, h
 	case mode < 20:
 		// clean shutdown, restart, go on
@@ -116,7 +138,7 @@ func gen(_ *rand.Rand, tier string, c int, seed int64) (producer.Cfg, []producer
 }
 
 func TestVerif(t *testing.T) {
-	rule := "groups of 6 cases = one base history (boot, 0..5 (quick) / 0..24 (thorough) well-formed steps: 55% non-empty, 30% empty batches, nil/err, 8% execution errors, non-decreasing timestamps, initial height from {1,1,2,7}) x ALL cut points k=0..5 of the primary crash; 80%: crash inside a production step (10% of chain-less bases: inside the first boot), nesting depth 1..2 (quick) / 1..3 (thorough): the recovery boot or the step after it is cut again at a random point, then restart and 2..4 more steps; 12%: shutdown that dies while one of the 8 cache files is partly written (kept length 0 / 1 / 7 / all-but-some bytes); 8%: clean shutdown and restart; every case ends with the oracle's probe (restart if needed, three well-formed steps); non-trivial = a crash or shutdown item and at least one block committed; distinct = distinct (configuration, history)"
+	rule := "groups of 6 cases = one base history (boot, 0..5 (quick) / 0..24 (thorough) well-formed steps: 55% non-empty, 30% empty batches, nil/err, 8% execution errors, non-decreasing timestamps, initial height from {1,1,2,7}) x ALL cut points k=0..5 of the primary crash; 80%: crash inside a production step (10% of chain-less bases: inside the first boot), nesting depth 1..2 (quick) / 1..3 (thorough): the recovery boot or the step after it is cut again at a random point, then restart and 2..4 more steps; 12%: shutdown that dies after j = 0/1/3/4/7/8 of the 8 cache files were renamed (stale temporary file left), restart, steps, half of them cut a second time; 4%: malformed stream (a cache file truncated BY HAND to 0/1/7 bytes, or damaged while running and then a cut shutdown); 4%: clean shutdown and restart; every case ends with the oracle's probe (restart if needed, three well-formed steps); non-trivial = a crash or shutdown item and at least one block committed; distinct = distinct (configuration, history)"
 	producer.Main(t, "C04", gen, rule, func(cfg producer.Cfg, h []producer.Item, obs []producer.Obs) bool {
 		crash, commits := 0, 0
 		for i, it := range h {
